@@ -42,6 +42,7 @@ var weirdImports = []string{
 	"import bind /VB/hostsrc /mnt/host/deeper",
 	"import bind /VB/layers-shared/distfiles /mnt/shared",
 	"import bind $$self/shm /dev/shm",
+	"import tmpfs /VB/hostsrc /mnt/tmp", // a non-bind import with an absolute source string
 }
 
 type glayer struct {
@@ -124,6 +125,9 @@ func hostTable(g *Gen, variants bool) []interface{} {
 	row := func(id, parent int, dev, root, mp, fstype, src string) []interface{} {
 		return []interface{}{float64(id), float64(parent), hx(dev), hx(root), hx(mp), hx(fstype), hx(src), "", "", ""}
 	}
+	ovl := func(id, parent int, dev, mp, lower, upper, work string) []interface{} {
+		return []interface{}{float64(id), float64(parent), hx(dev), hx("/"), hx(mp), hx("overlay"), hx("overlay"), hx(lower), hx(upper), hx(work)}
+	}
 	t := []interface{}{
 		row(1, 0, "8:1", "/", "/", "ext4", "/dev/sda1"),
 		row(2, 1, "0:4", "/", "/proc", "proc", "proc"),
@@ -135,13 +139,20 @@ func hostTable(g *Gen, variants bool) []interface{} {
 		row(8, 3, "0:20", "/", "/sys/kernel/security", "securityfs", "securityfs"),
 	}
 	if variants {
-		switch g.Intn(6) {
+		switch g.Intn(9) {
 		case 0: // /dev/shm mounted twice (stacked), as on this sandbox's host
 			t = append(t, row(9, 6, "0:21", "/", "/dev/shm", "tmpfs", "shm2"))
 		case 1: // host source on its own file system
 			t = append(t, row(9, 1, "0:22", "/", VB+"/hostsrc", "tmpfs", "tmpfs"))
-		case 2: // base path behind a bind mount of a subdirectory (known finding C08)
+		case 2: // base path behind a bind mount of a subdirectory (C08, fixed by 23c682d)
 			t = append(t, row(9, 1, "8:1", "/real/base", VB, "ext4", "/dev/sda1"))
+		case 3: // base path on an overlay file system, as inside a container (C08, fixed by 23c682d)
+			t = append(t, ovl(9, 1, "0:40", VB, "/lo", "/up", "/wk"))
+		case 4: // host source behind a bind mount / subvolume of another device
+			t = append(t, row(9, 1, "8:3", "/other/dir", VB+"/hostsrc", "ext4", "/dev/sdc1"))
+		case 5: // base path a subvolume and the host source a subvolume below it (nested subroots)
+			t = append(t, row(9, 1, "8:2", "/sub", VB, "btrfs", "/dev/sdb1"))
+			t = append(t, row(10, 9, "8:2", "/sub/hostsrc", VB+"/hostsrc", "btrfs", "/dev/sdb1"))
 		}
 	}
 	return t
@@ -186,6 +197,12 @@ func genLayerTree(g *Gen, t *treeB, l glayer, pf scnProfile, sloppy bool) {
 			mp := mountpointOf(i)
 			if mp != "" && mp != "/" && !strings.Contains(mp, "..") && !(incomplete && g.Chance(1, 4)) {
 				t.dir(lp + "/build" + mp)
+			}
+		}
+		for _, e := range l.exports {
+			// a dot-named export source exists (mostly): C08, fixed by eeedaf2
+			if f := strings.Fields(e); len(f) > 2 && strings.HasPrefix(f[2], "/.") && g.Chance(4, 5) {
+				t.dir(lp + "/build" + f[2])
 			}
 		}
 		if g.Chance(30, 100) {
@@ -255,6 +272,8 @@ func genForest(g *Gen, pf scnProfile) []glayer {
 		}
 		if g.Chance(10, 100) {
 			l.exports = append(l.exports, "export symlink /mnt/gen $$file_export")
+		} else if g.Chance(8, 100) {
+			l.exports = append(l.exports, "export symlink /.cache $$file_export")
 		}
 		ls = append(ls, l)
 	}
@@ -404,8 +423,8 @@ func genScenario(g *Gen, pf scnProfile) Case {
 				ln = forest[g.Intn(len(forest))].name
 			}
 			build := VB + "/layers/" + ln + "/build"
-			tgt := build + g.Pick("/proc", "/dev", "/mnt/host", "/mnt/sub", "/var/cache/binpkgs", "/mnt/gen", "/mnt/foreign", "", "x", ".old", ".old/sub")
-			switch g.Intn(4) {
+			tgt := build + g.Pick("/proc", "/dev", "/mnt/host", "/mnt/sub", "/var/cache/binpkgs", "/mnt/gen", "/mnt/foreign", "", "x", ".old", ".old/sub", "/mnt/tmp")
+			switch g.Intn(7) {
 			case 0:
 				st["args"] = hxs([]string{VB + "/hostsrc", tgt, "bind"})
 				st["flags"] = float64(4096)
@@ -417,6 +436,15 @@ func genScenario(g *Gen, pf scnProfile) Case {
 				st["flags"] = float64(0)
 			case 3:
 				st["args"] = hxs([]string{"tmpfs", tgt, "tmpfs"})
+				st["flags"] = float64(0)
+			case 4: // another file-system type made from a configured source string (finding C08)
+				st["args"] = hxs([]string{g.Pick("/proc", VB+"/hostsrc"), build + g.Pick("/proc", "/mnt/tmp"), "ramfs"})
+				st["flags"] = float64(0)
+			case 5: // the configured type made from another source string
+				st["args"] = hxs([]string{"none", build + "/mnt/tmp", "tmpfs"})
+				st["flags"] = float64(0)
+			case 6: // the configured type and source, by hand
+				st["args"] = hxs([]string{VB + "/hostsrc", build + "/mnt/tmp", "tmpfs"})
 				st["flags"] = float64(0)
 			}
 			steps = append(steps, st)
